@@ -115,6 +115,14 @@ fn check_spectrum(label: &str, x: &RefArray) -> (u64, Vec<Viol>) {
             }
         } else {
             let direct = stat("f4", x);
+            if label == "scale-ramp" {
+                // the scale spectrum is built to have a clearly non-zero f4 (the relation would be vacuous otherwise)
+                if let Ok(v) = &direct {
+                    if v.abs() < 1e-4 {
+                        report("f4-from-f2", "f4", format!("{label} shape {shape:?}: |f4| = {v:e} is too small for the decomposition check to mean anything"), "vacuous", &mut viols);
+                    }
+                }
+            }
             let combo = f2_of([0, 3]).and_then(|ad| {
                 f2_of([1, 2]).and_then(|bc| f2_of([0, 2]).and_then(|ac| f2_of([1, 3]).map(|bd| (ad + bc - ac - bd) / 2.0)))
             });
@@ -332,7 +340,21 @@ pub fn run(tier: Tier) -> i32 {
     // scale: spectra beyond 1 024, 4 096 and 65 536 entries (a ramp-like filling with mass in the last entries)
     for s in [vec![1030usize], vec![1601], vec![2049], vec![70, 65], vec![19, 17, 15], vec![45, 41, 39], vec![19, 17, 16, 15]] {
         let cells: usize = s.iter().product();
-        jobs.push(("scale-ramp".to_string(), RefArray::from_fn(&s, |f, _| if f + 5 >= cells { 900.0 } else { ((f * 13) % 31 + 1) as f64 })));
+        // (for four populations the filling correlates (A-B) with (C-D), so that f4 is far from zero:
+        // a sign error or a crossed pairing would be invisible on a spectrum whose f4 vanishes)
+        let sh = s.clone();
+        jobs.push((
+            "scale-ramp".to_string(),
+            RefArray::from_fn(&s, |f, idx| {
+                let base = if f + 5 >= cells { 900.0 } else { ((f * 13) % 31 + 1) as f64 };
+                if sh.len() == 4 {
+                    let fr = |a: usize| idx[a] as f64 / (sh[a] - 1) as f64;
+                    base + 400.0 * ((fr(0) - fr(1)) * (fr(2) - fr(3))).max(0.0)
+                } else {
+                    base
+                }
+            }),
+        ));
     }
     let res = par_map(jobs.len(), |i| check_spectrum(&jobs[i].0, &jobs[i].1));
     let mut ev = 0u64;
